@@ -196,6 +196,13 @@ func AltForm(c cid.Cid) cid.Cid {
 	return c
 }
 
+// Native reports whether the harness runs as an ordinary Go program (replay) rather than under the engine.
+func Native() bool { return true }
+
+// AssumeKeyY tells the engine which shape the key has (see the harness that uses it); natively the harness has
+// drawn a key of that shape already.
+func AssumeKeyY(key interface{}, leadingZero bool) {}
+
 func Cid(i int) cid.Cid { return cidFor(fmt.Sprintf("c%d", i)) }
 
 // FreshCid returns a CID distinct from every other one handed out.
